@@ -83,6 +83,10 @@ ADSORBATES = [
 # schemes that generic generation rarely reaches (which of them actually fire
 # is measured and reported in the C02 evidence)
 TARGETED = [
+    # size: more than a thousand non-unique embeddings of a one-atom pattern
+    # (24 per sp3 carbon), macrocycles
+    'C' * 45, 'C' * 60, 'CC(C)' * 12 + 'C', 'C' * 20 + 'O' + 'C' * 25,
+    'C1CCCCCCCCC1', 'C1CCCCCCCCCCC1', 'O=C1CCCCCCCCCCC1',
     'CC(C)C(C)(C)C', 'CC(C)(C)C(C)(C)C', 'CC(C)C(C)C', 'CCC(C)C(C)(C)CC',
     'CC(C)C(C)=C', 'CC(C)(C)C(C)=C', 'CC(C)(C)C=C', 'CC(C)C=C',
     'CC(C)(C)C(=C)C(C)(C)C', r'C/C(CC)=C(C)/CC', r'C/C(CC)=C(/C)CC',
